@@ -124,7 +124,7 @@ func init() {
 	register("C12", func(e *Env) {
 		renderPrelude()
 		e.perShard = 60
-		e.rep.Rule = "19 recording helpers (0-3 fixed parameters of several types, +/- trailing options map, +/- helper context by struct or interface type, +/- variadic tail of interface{} or string) x every call shape of 0..3 (thorough: 0..4) arguments drawn from 11 argument kinds, +/- a block; expectation = the declarative binding (positional, nil -> zero value, omitted trailing map/helper context supplied, variadic tail collects the rest; too many / not assignable / more than two missing => an error naming the call and NO invocation); observed through the helpers' own log; plus evaluation-order probes with counting arguments, and sequences in which a helper writes into its auto-supplied options map before other calls omit theirs; distinct by call"
+		e.rep.Rule = "19 recording helpers (0-3 fixed parameters of several types, +/- trailing options map, +/- helper context by struct or interface type, +/- variadic tail of interface{} or string) x every call shape of 0..3 (thorough: 0..4) arguments drawn from 11 argument kinds, +/- a block; expectation = the declarative binding (positional, nil -> zero value, omitted trailing map/helper context supplied, variadic tail collects the rest; too many / not assignable / more than two missing => an error naming the call and NO invocation); observed through the helpers' own log; plus evaluation-order probes with counting arguments, arguments that are themselves helper calls, and sequences in which a helper writes into its auto-supplied options map before other calls omit theirs; distinct by call"
 		binds := []Bind{{"t0", vT0("zero")}, {"pt0", vPtr(vT0("pt"))}, {"fl", vFloat("1.5")}, {"h", vHTML("<i>")}, {"n", vInt(3)},
 			{"c1", vGo(101, vInt(1), vStr("x"))}, {"c2", vGo(101, vInt(2), vInt(5))}, {"c3", vGo(101, vInt(3), vBool(true))}}
 		for sg := 0; sg <= 18; sg++ {
@@ -217,6 +217,42 @@ func init() {
 				if l.Id == 106 && o.Class != "OK" {
 					e.Violate("c12-reject", fmt.Sprintf("%s failed (%s) but the helper was invoked", t.tmpl, o.Msg), map[string]interface{}{"case": c, "observed": o})
 				}
+			}
+		}
+		// arguments that are themselves Go-helper calls (after an earlier call with more arguments):
+		// the outer helper must receive its own earlier arguments unchanged
+		for _, t := range []struct {
+			tmpl string
+			want [][]string
+		}{
+			{`<%= rec3(1, "w", true) %><%= rec10("a", id("b")) %>`, [][]string{{show(1), show("w"), show(true)}, {show("a"), show("b")}}},
+			{`<%= rec18("p", "q", "r") %><%= rec10("a", rec10("b", "c")) %>`, [][]string{{show("p"), show("q"), show("r")}, {show("b"), show("c")}, {show("a"), show("r10")}}},
+			{`<%= rec3(1, "w", true) %><%= rec7(5, id(6), id(7), id(8)) %>`, [][]string{{show(1), show("w"), show(true)}, {show(5), show(6), show(7), show(8)}}},
+			{`<%= rec3(1, "w", true) %><%= rec2("s", id(id(4))) %>|<%= rec2(id("t"), id(9)) %>`, [][]string{{show(1), show("w"), show(true)}, {show("s"), show(4)}, {show("t"), show(9)}}},
+			{`<%= rec3(1, "w", true) %><%= rec4("s", {k: id(1)}) %><%= rec3(id(2), rec0(), id(false)) %>`, [][]string{{show(1), show("w"), show(true)}, {show("s"), "?"}, {}, {show(2), show("r0"), show(false)}}},
+		} {
+			c := RCase{Tmpl: t.tmpl, Binds: append(append([]Bind{}, binds...), Bind{"id", vGo(107)})}
+			o := e.addRenderCase("nested-helper-args", c)
+			var got [][]string
+			for _, l := range o.Log {
+				if l.Id == 106 {
+					got = append(got, l.Args[1:])
+				}
+			}
+			ok := o.Class == "OK" && len(got) == len(t.want)
+			for i := 0; ok && i < len(got); i++ {
+				if len(got[i]) != len(t.want[i]) {
+					ok = false
+					break
+				}
+				for j := range got[i] {
+					if t.want[i][j] != "?" && got[i][j] != t.want[i][j] {
+						ok = false
+					}
+				}
+			}
+			if !ok {
+				e.Violate("c12-bind", fmt.Sprintf("%s: the helpers must receive %v in this order; observed %s, log %v %s", t.tmpl, t.want, o.Class, got, o.Msg), map[string]interface{}{"case": c, "observed": o})
 			}
 		}
 		// an omitted trailing options map is a FRESH empty map for every call: a helper that writes
